@@ -183,7 +183,15 @@ class Catalogue:
             body_start = m.end() - 1
             inner = [i for i in selection_braces(q) if i > body_start and i < (balanced_end(q, body_start) or 0)]
             if inner: res.append(_insert(q, self.r.choice(inner) + 1, f" ...{name} "))
-        return self.r.sample(res, min(4, len(res)))
+        # a cycle through TWO fragments (A -> B -> A), same type condition preferred
+        fr = list(re.finditer(r"^fragment (F\d+) on (\w+) \{", q, re.M))
+        for a in fr:
+            for b in fr:
+                if a.group(1) < b.group(1) and (a.group(2) == b.group(2) or self.r.random() < 0.3):
+                    q2 = _insert(q, b.end(), f" ...{a.group(1)} ")          # later definition first: offsets of the earlier stay valid
+                    q2 = _insert(q2, a.end(), f" ...{b.group(1)} ")
+                    res.append(q2)
+        return self.r.sample(res, min(5, len(res)))
     def m_spread_impossible(self, q):
         res = []
         objs = self.sg.obj_names
